@@ -1317,7 +1317,12 @@ class RepoInterp:
         if not generator_ok and self.heap and self._is_generator(callee):
             # a generator function: interpreted eagerly, the values it yields become the sequence the caller iterates
             mark = len(st.effects)
-            self._inline_call(callee, call, fval, args, kwargs, st, generator_ok=True)
+            rounds = getattr(self.interp, "symbolic_rounds", 1)
+            self.interp.symbolic_rounds = 2  # type: ignore[attr-defined]
+            try:
+                self._inline_call(callee, call, fval, args, kwargs, st, generator_ok=True)
+            finally:
+                self.interp.symbolic_rounds = rounds  # type: ignore[attr-defined]
             ys = [(e[2] if len(e) > 2 and isinstance(e[2], Ref) and e[2].kind == "obj" else e[1]) for e in st.effects[mark:] if e[0] == "yield"]
             if any(e[0] == "yield-from" for e in st.effects[mark:]):
                 return U("generator with yield from")
